@@ -570,4 +570,30 @@ Section PdrTerminationTheorems.
       exfalso. apply (safe_below lit St EM lit_holds bad0 step0 trans bad st' Hinv' d); [| exact Hu].
       unfold PdrImplProofs.frontier'. lia.
   Qed.
+
+  (** ... and a system whose counterexamples are all longer than MAX_FRAMES steps gets the answer Unknown
+      at the frame limit - the property's "terminates with one of these two answers" FAILS for the model
+      on such systems (they have at least MAX_FRAMES states) *)
+  Theorem pdr_model_deep_unknown fuel bf :
+    finite_states -> oracle_ok -> no_faults ->
+    (exists d, unsafe_at St bad0 step0 trans bad d) ->
+    (forall d, d <= MAX_FRAMES -> ~ unsafe_at St bad0 step0 trans bad d) ->
+    pdr_fuel_bound (length states) < fuel -> pdr_block_fuel_bound (length states) < bf ->
+    exists st', run fuel bf = Ok (VUnknown W, st') /\ MAX_FRAMES < length (p_frames lit St EM st').
+  Proof.
+    intros Hfin Hor Hnf (d0 & Hu) Hdeep Hf Hbf.
+    destruct (pdr_model_terminates fuel bf Hfin Hor Hnf Hf Hbf) as (v & st' & H).
+    destruct v as [| w |].
+    - exfalso.
+      exact (pdr_model_success_sound lit lit_eqb St cube_of_state W EM solve cmd_fail n_init gen_on has_bads bmc_result
+                                     lit_holds bad0 step0 trans bad fuel bf st' Hor H d0 Hu).
+    - exfalso.
+      destruct (pdr_model_fail_real lit lit_eqb St cube_of_state W EM solve cmd_fail n_init gen_on has_bads bmc_result
+                                    lit_holds bad0 step0 trans bad fuel bf w st' Hor H) as (_ & d & Hd & Hud).
+      exact (Hdeep d Hd Hud).
+    - exists st'. split; [exact H |].
+      destruct (pdr_model_unknown_only lit lit_eqb St cube_of_state W EM solve cmd_fail n_init gen_on has_bads bmc_result
+                                       lit_holds bad0 step0 trans bad fuel bf st' Hor H) as [Hl | (_ & d & Hd & Hud)]; [exact Hl |].
+      exfalso. exact (Hdeep d Hd Hud).
+  Qed.
 End PdrTerminationTheorems.
